@@ -16,11 +16,11 @@ ORACLE = ("oracle = 40-digit mpmath evaluation / derivative of the generated exp
 CHECKS = {
     "C01": dict(
         technique="runtime monitor on Model.model return values vs independent high-precision value oracle, random programs x inputs x CSE settings",
-        text="Every observed return value of the compiled Python model, over randomly generated model definitions, named input points and both CSE settings, is compared name-by-name with an independent 40-digit evaluation of the user's expression; held means no observed execution deviated.",
+        text="Every observed return value of the compiled Python model, over randomly generated model definitions, named input points and both CSE settings, is compared name-by-name with an independent 40-digit evaluation of the user's expression; held means no observed execution deviated. Includes angle-wrap idioms (asin(sin u) ...) and directed probes of the exp-overflow region (known finding cse-simplify:exp-overflow).",
         ref="2 C01", note=ORACLE),
     "C02": dict(
         technique="generated C++ compiled under ASan/UBSan and executed; outputs compared with value/derivative oracle; NaN-poisoned matrices",
-        text="Generated header+source of random definitions (all four control x calibration combinations, 0-3 sensors) are compiled with sanitizers and driven through named Options/accessors; every function output is compared with the independent oracle.",
+        text="Generated header+source of random definitions (all four control x calibration combinations, 0-3 sensors) are compiled with sanitizers and driven through named Options/accessors; every function output is compared with the independent oracle. The compiled constants (max_dt_sec, innovation_filtering) are read back and must equal the configuration exactly; value-only units cover angle-wrap idioms; thorough tier adds valgrind memcheck on un-instrumented builds.",
         ref="2 C02", note=ORACLE + "; " + TRUST_CPP),
     "C03": dict(
         technique="runtime monitor on the three Jacobian methods vs independently differentiated expression tree, rectangular-biased programs",
@@ -28,7 +28,7 @@ CHECKS = {
         ref="2 C03", note=ORACLE),
     "C04": dict(
         technique="runtime contract monitor on process_model (direct, adapter-driven and runtime-driven calls) vs numpy reference built from oracle Jacobians; purity and idempotence by byte comparison",
-        text="Every monitored prediction is checked against x'=f(x,u), P'=GPG^T+VMV^T with G,V from the independent oracle and M from the user's noise dict by name; inputs must be byte-identical after the call and a repeated call bit-identical.",
+        text="Every monitored prediction is checked against x'=f(x,u), P'=GPG^T+VMV^T with G,V from the independent oracle and M from the user's noise dict by name; inputs must be byte-identical after the call and a repeated call bit-identical. dt ranges over ordinary, zero, sub-nanosecond and negative steps.",
         ref="2 C04", note=ORACLE),
     "C05": dict(
         technique="runtime contract monitor on sensor_model vs numpy Kalman reference (oracle H, h; solve-based), recorded innovation and S checked, multi-reading sensors",
@@ -36,7 +36,7 @@ CHECKS = {
         ref="2 C05", note=ORACLE + "; cond(S)<=1e4, cond(P)<=1e6 by construction"),
     "C06": dict(
         technique="decision monitor on remove_innovation / removeInnovation<m> / generated sensor_model vs exact rational NIS rule incl. boundary and +-1ulp cases; ASan/UBSan",
-        text="Decisions of the three implementations are compared with the exact rule (rational arithmetic), including inputs whose NIS equals the threshold or its floating-point neighbours; a discard must return the input estimate bit-identically and still record the innovation.",
+        text="Decisions of the three implementations are compared with the exact rule (rational arithmetic), including inputs whose NIS equals the threshold or its floating-point neighbours; a discard must return the input estimate bit-identically and still record the innovation. The threshold compiled into the generated filter is read back; thresholds with >6 significant digits and covariances symmetric only up to rounding are included.",
         ref="2 C06", note=TRUST_CPP),
     "C07": dict(
         technique="differential monitor: in-process Python filter vs compiled generated C++ filter (ASan/UBSan) stepwise on the same named inputs",
@@ -44,11 +44,11 @@ CHECKS = {
         ref="2 C07", note=TRUST_CPP),
     "C08": dict(
         technique="metamorphic monitor CSE on vs off (Python outputs, Jacobians, filter steps, generated C++), plus trace check of temporary declaration order in generated bodies",
-        text="All outputs of CSE-on and CSE-off builds of the same definition are compared with each other and the oracle; generated C++ bodies are parsed for single assignment and use-after-definition of temporaries and compiled.",
+        text="All outputs of CSE-on and CSE-off builds of the same definition are compared with each other and the oracle; generated C++ bodies are parsed for single assignment and use-after-definition of temporaries and compiled. A role-swapped twin (control moved to calibration) is compiled in the same interpreter to expose state carried between compilations.",
         ref="2 C08", note=ORACLE + "; " + TRUST_CPP),
     "C09": dict(
         technique="history monitor: classify every covariance passed to assert_valid_covariance / returned along random predict/update histories (valid / grey / invalid by relative eigen-analysis)",
-        text="Along random histories from valid covariances (incl. the project's singular mass/z/v/a model) the filter must never refuse a covariance that is symmetric PSD up to 1e-13 relative, nor return one that is invalid beyond 1e-8 relative.",
+        text="Along random histories from valid covariances (incl. the project's singular mass/z/v/a model) the filter must never refuse a covariance that is symmetric PSD up to 1e-13 relative, nor return one that is invalid beyond 1e-8 relative. The generated C++ filter is driven along free-running histories too and its returned covariances are classified with the same thresholds.",
         ref="2 C09", note="valid: asym<=1e-13*s and lambda_min>=-1e-13*s; invalid: >1e-8*s; between = grey (undecided); histories bounded in length and magnitude"),
     "C10": dict(
         technique="offline trace checker over recorded dt sequences of a recording stand-in filter driven by the real Python runtime and of recording Impl types compiled against ManagedFilter.h (ASan/UBSan)",
@@ -60,7 +60,7 @@ CHECKS = {
         ref="2 C11", note="C++ side uses recording Impl types against the real ManagedFilter.h"),
     "C12": dict(
         technique="compile-and-run monitor: generated filters in all control x calibration x sensor-count combinations instantiated in ManagedFilter under ASan/UBSan, tick result vs by-hand replay of the recorded schedule",
-        text="Each generated filter must satisfy the runtime's compatibility check, compile when ticked with and without readings, and return bit-identically what replaying the recorded call schedule by hand returns.",
+        text="Each generated filter must satisfy the runtime's compatibility check, compile when ticked with and without readings, and return bit-identically what replaying the recorded call schedule by hand returns. max_dt_sec values that do not round-trip through short decimal formats (0.0123456789, 1/3, 2.5e-7) and the constants read-back are part of every unit.",
         ref="2 C12", note=TRUST_CPP),
     "C13": dict(
         technique="constructor probes + metamorphic monitor (renamed twin, permuted declaration, other containers) on named outputs, Python and C++",
@@ -73,19 +73,19 @@ CHECKS = {
         ref="2 C14", note="fault classes are exactly the table of DESIGN 2 C14"),
     "C15": dict(
         technique="digest comparison across child processes with different PYTHONHASHSEED, declaration orders and container types",
-        text="Header, source and Python layouts generated in child interpreters under different hash seeds, dict orders and containers must have identical sha256 digests.",
+        text="Header, source and Python layouts generated in child interpreters under different hash seeds, dict orders and containers must have identical sha256 digests. Each child also regenerates in-process (same generator, and a fresh generator with source rendered first) and must reproduce its first generation.",
         ref="2 C15", note="children verify their own canonical fingerprint first (harness determinism)"),
     "C16": dict(
         technique="monitor on transform/mahalanobis/score vs by-hand run of export_python() and recomputed score; parameter snapshots before/after",
-        text="transform output is compared with NIS values obtained by driving the exported filter by hand in the documented order; mahalanobis, score components, non-negativity, parameter immutability and repeatability are checked on every call.",
+        text="transform output is compared with NIS values obtained by driving the exported filter by hand in the documented order; mahalanobis, score components, non-negativity, parameter immutability and repeatability are checked on every call. A sequence transform -> set_params(config field) -> transform -> set_params(noise) -> transform on the same object is compared with the re-exported filter each time.",
         ref="2 C16", note="fixed step 0.1 and identity/zero start as documented by the adapter"),
     "C17": dict(
         technique="parameter snapshot monitor around get/set/clone/fit; exception-type monitor on fit",
-        text="get_params snapshots are compared structurally around set_params, clone and fit; fit must either raise MinimizationFailure or leave model/sensors/calibration/config untouched with finite noises and positive process noise.",
+        text="get_params snapshots are compared structurally around set_params, clone and fit; fit must either raise MinimizationFailure or leave model/sensors/calibration/config untouched with finite noises and positive process noise. Several configuration fields per set_params call, and fits with extra_validation=True, are included.",
         ref="2 C17", note="fits are bounded in size (3-12 rows)"),
     "C18": dict(
         technique="transition/history monitor and path execution for all (state,target) pairs; recording GridSearchCV subclass for grid membership and exported config",
-        text="All state/target pairs are searched and the returned paths executed; fit_model is driven with small and valid data sets and shuffled grids, and the selected hyper-parameters must be grid members carried by the exported filter.",
+        text="All state/target pairs are searched and the returned paths executed; fit_model is driven with small and valid data sets and shuffled grids, and the selected hyper-parameters must be grid members carried by the exported filter. The configuration of every estimator the scorer actually sees is recorded (hook on NisScore.__call__): each candidate must have been evaluated as specified; the source state's history must be untouched by a transition, also by a refused fit.",
         ref="2 C18", note="whether the best candidate is chosen is not part of the property"),
     "C19": dict(
         technique="reference-model monitor: independent numpy quaternion kinematics vs symbolic state_model (mp) and compiled Python model, random non-unit orientations",
